@@ -233,6 +233,9 @@ pub fn cfg(chunk: u32, rb: u32, mds: usize, ssq: usize, tq: usize) -> Cfg {
 
 /// Runs one execution of the scenario with the given deviations.
 pub fn execute(scn: &dyn Scenario, devs: &[Deviation], seed: u64) -> (Outcome, Verdict) {
+    if std::env::var("VERIF_TRACE").is_ok() {
+        eprintln!("exec {} {:?}", scn.id(), devs);
+    }
     install_panic_hook();
     PANICS.with(|p| *p.borrow_mut() = Some(Vec::new()));
 
